@@ -1,7 +1,7 @@
 """C17 - system entropy: full-state seeding, each word served once, failures never masked."""
 from . import common as C
 
-LEAN_MODULE = ["Urandom.Props.C17", "Urandom.Props.C17T", "Urandom.Props.C01R"]
+LEAN_MODULE = ["Urandom.Props.C17", "Urandom.Props.C17T", "Urandom.Props.C01R", "Urandom.Props.C17R"]
 RULE = ("requests: System<N> for N in {0,1,2,3,4,5,7,8,31,64} and, with draw sequences that walk through whole blocks, {65,100,127,128,200,1000} under random interleavings of next_u32 / next_u64 / fill_bytes(len) / jump with panics caught per operation, against a "
         "scripted entropy source (the crate is built without `getrandom` and linked against the harness's getentropy_raw): tagged words, failure injected at every fetch index, a "
         "failing fetch scribbles over the destination first; entropy-seeded constructors X::new() with the state read back through serde. "
